@@ -423,6 +423,8 @@ func makeTruncPlan(seed int64) *plan {
 	for ref.Tip.Height < 102 {
 		add(g.RandomBlock(ref.Tip, 0), "base")
 	}
+	ctl("idle") // a first snapshot, so that the one taken below leaves an UTXO.old behind
+	ctl("waitsave")
 	for ref.Tip.Height < 106 {
 		add(g.RandomBlock(ref.Tip, 5), "base+tx")
 	}
@@ -515,6 +517,13 @@ func truncationTests(run *vlib.Run, tmp string, seed int64) {
 			if blen > 2 {
 				cuts = append(cuts, cut{datName, fpos + 1 + int64(r.Intn(int(blen-1))), fmt.Sprintf("data@block%d-inside", k)})
 			}
+		}
+	}
+	// the snapshot itself: a file that breaks off in its header or among its records has to be passed over in favour of
+	// UTXO.old (that is what the older file is kept for) or of a rebuild from the block store
+	if usz := fileSize(dir + "/UTXO.db"); usz > 100 {
+		for _, off := range []int64{20, 47, 48 + int64(r.Intn(int(usz-60))), usz / 2, usz - 3} {
+			cuts = append(cuts, cut{"UTXO.db", off, fmt.Sprintf("snapshot@%s", map[bool]string{true: "header", false: "records"}[off < 48])})
 		}
 	}
 	vlib.Parallel(len(cuts), 12, func(i int) {
